@@ -55,18 +55,26 @@ _POS = {}
 
 
 def set_locator(src, locs):
-    """locs: site id -> "file:line:col:endline:endcol" as emitted by extract/c13.py for the tree under test"""
+    """locs: site id -> "file:line:col:endline:endcol[@<position of the helper call it was inlined at>…]" as emitted by
+    extract/c13.py for the tree under test"""
     _LOC['pkg'] = os.path.join(os.path.realpath(src), 'pyramid') + os.sep
-    _LOC['map'] = {l: i for i, l in enumerate(locs) if l and l != '-'}
+    m = {}
+    for i, l in enumerate(locs):
+        if l and l != '-':
+            parts = l.split('@')
+            m.setdefault(parts[0], []).append((tuple(parts[1:]), i))
+    _LOC['map'] = m
 
 
 def site_here():
     """site id of the innermost call expression of a translated function that is on the Python stack right now:
     walks the frames outwards and looks the position of each frame's current instruction up in the translator's
-    location table (frames of code that is not translated are skipped)"""
+    location table (frames of code that is not translated are skipped); a site inside a helper that the translator
+    inlined at several call sites is told apart by the positions of the calling frames"""
     pkg, m = _LOC['pkg'], _LOC['map']
     if not pkg:
         return None
+    chain = []          # positions of the current instruction of every frame of the package, innermost first
     f = sys._getframe(1)
     while f is not None:
         code = f.f_code
@@ -78,11 +86,15 @@ def site_here():
             i = f.f_lasti // 2
             if 0 <= i < len(pos):
                 l, el, c, ec = pos[i]
-                rel = os.path.realpath(fn)[len(pkg):]
-                s = m.get('%s:%s:%s:%s:%s' % (rel, l, c, el, ec))
-                if s is not None:
-                    return s
+                chain.append('%s:%s:%s:%s:%s' % (os.path.realpath(fn)[len(pkg):], l, c, el, ec))
         f = f.f_back
+    for j, key in enumerate(chain):
+        cands = m.get(key)
+        if not cands:
+            continue
+        for ctx, s in sorted(cands, key=lambda x: -len(x[0])):
+            if tuple(chain[j + 1:j + 1 + len(ctx)]) == ctx:
+                return s
     return None
 
 
@@ -1210,6 +1222,9 @@ def get_sites(ctx):
 
 _HOOKED = {}      # entry group -> set of instrumented site ids seen so far (scope scenario name / 'pipeline')
 _TERMS = {}
+_RECOG = {}       # entry -> the translator recognised its skeleton completely (no `unknown` inside)
+_UNREC = {}       # entry -> number of cases whose exec comparison was skipped for that reason
+_SITELESS = {}    # hook label -> cases whose hook could not be located while the translator reports unknown constructs
 
 
 def _note_hooked(group, visits):
@@ -1247,7 +1262,7 @@ def eval_cases(ctx, cases, use_model=True):
     have_model = bool(use_model and ctx.driver_path and sinfo is not None)
     if have_model:
         if _LOC.get('src') != ctx.src:
-            _HOOKED.clear(); _TERMS.clear(); _POS.clear()
+            _HOOKED.clear(); _TERMS.clear(); _POS.clear(); _RECOG.clear(); _UNREC.clear(); _SITELESS.clear()
             _LOC['src'] = ctx.src
         set_locator(ctx.src, sinfo.get('locs', []))
     obs, sks = [], []
@@ -1300,12 +1315,18 @@ def eval_cases(ctx, cases, use_model=True):
         if need_terms:
             for nm, r in zip(need_terms, ctx.run_model([{'op': 'term', 'entry': nm} for nm in need_terms])):
                 _TERMS[nm] = r.get('term')
+                _RECOG[nm] = bool(r.get('recognised', True))
         for i, (c, o) in enumerate(zip(cases, obs)):
             if have_model and o is not None and c.get('kind') != 'scope':
                 lines.append(model_line(c)); owner.append((i, 'tree', None))
         for job in jobs:
             i, entry, group, d0, v, raised, d_after, shown = job
             term = _TERMS.get(entry)
+            if not _RECOG.get(entry, True):
+                # a source shape the translator does not follow: its generated obligation is vacuous (Props/C13) and the
+                # exec comparison is meaningless; this case is judged by the behavioural cube (model tree + oracle) alone
+                _UNREC[entry] = _UNREC.get(entry, 0) + 1
+                continue
             orc = find_oracle(term, d0, v, _HOOKED.get(group, set()), raised, d_after) if term is not None else None
             if orc is None:
                 mism.append({'kind': 'no-oracle', 'case': cases[i], 'impl': shown,
@@ -1323,6 +1344,13 @@ def eval_cases(ctx, cases, use_model=True):
         except Exception as e:        # a driver that dies is a correspondence break, not a reason to stop looking at the code
             mism.append({'kind': 'driver-failed', 'case': None, 'impl': None, 'model': {'error': str(e)[:500]}})
             bad_case.update(i for i, _w, _x in owner)
+    if missing and (sinfo or {}).get('unknowns'):
+        # hooks that ran outside every translated call site while the translator reports constructs it does not follow:
+        # not a correspondence break of its own (the unrecognised shape is reported, the behavioural cube decides)
+        for l, n in missing.items():
+            _SITELESS[l] = _SITELESS.get(l, 0) + n
+        bad_case.clear()
+        missing = {}
     if missing:
         ex = next(cases[i] for i in sorted(bad_case) if obs[i] is not None)
         mism.append({'kind': 'skeleton-site-missing', 'case': ex, 'impl': None,
@@ -1482,6 +1510,8 @@ def run(ctx):
     t = run_pipeline(ex)
     notes.append('excluded point (a finished callback raises; not in the statement\'s fault list): finished callbacks run %s of registered %s, stack depth after %s, outcome %s'
                  % ([e[2] for e in t['own'] if e[0] == 'cb'], [e[2] for e in t['own'] if e[0] == 'reg'], t['depth'], t['out']))
+    if _UNREC or _SITELESS:
+        notes.append('UNRECOGNISED SKELETON SHAPE: entries %s (cases whose exec comparison was skipped) / hooks outside translated call sites %s; the generated obligations of those entries are vacuous, these cases were judged by the behavioural cube alone (fault-injection runs vs pipeline model vs oracle: %d cases, %d mismatches, %d violations)' % (dict(_UNREC), dict(_SITELESS), total, len(mism), len(viol)))
     _, sinfo = get_sites(ctx)
     if sinfo is not None:
         notes.append('skeleton translator: %d sites, unknown constructs %s, no-raise sites %s' % (len(sinfo['sites']), sinfo.get('unknowns'), sinfo.get('noRaise')))
